@@ -12,6 +12,6 @@ for unit in sorted(os.listdir('/verif/units')):
         continue
     u = gen.Unit(unit, '/verif/units/%s/unit.rs' % unit)
     u.generate()
-    out[unit] = {r.selector: {'callees': r.callees, 'closures': r.n_closures, 'skeleton': hashlib.sha256(r.skeleton.encode()).hexdigest()[:12], 'aids': r.aid_ctx} for r in u.records if r.kind == 'fn'}
+    out[unit] = {r.selector: {'callees': r.callees, 'closures': r.n_closures, 'skeleton': hashlib.sha256(r.skeleton.encode()).hexdigest()[:12], 'aids': r.aid_ctx, 'if_ord': r.if_ord} for r in u.records if r.kind == 'fn'}
 json.dump(out, open('/verif/baseline_shapes.json', 'w'), indent=0, sort_keys=True)
 print('units', len(out), 'functions', sum(len(v) for v in out.values()))
